@@ -9,7 +9,7 @@ import json
 import os
 
 HERE = os.path.dirname(os.path.abspath(__file__))
-REPO = os.environ.get("REPO", "/repo")
+REPO = os.environ.get("VERIF_REPO", "/repo")
 FILE = os.path.join(HERE, "fingerprints.json")
 
 SIM = ["C01", "C02", "C03", "C04", "C05", "C06", "C07", "C08", "C16", "C20"]
